@@ -23,7 +23,7 @@ m = {
  "setup_cmd":"./setup.sh",
  "hooks":{
    "guard":"verif",
-   "enable":"none needed: each check instruments a scratch copy of /repo's working tree (go/ast yield points + controllable locks, logrus stub, sync.Pool overlay, registry reset hook) and builds it with -race; /repo carries no hook commit",
+   "enable":"none needed: each check instruments a scratch copy of /repo's working tree (go/ast yield points + controllable locks, library go statements as tasks, the clock and timers redirected to the simulator's virtual clock, logrus stub, sync.Pool / map-order / select-order overlay, rewind of package-level state between runs) and builds it with -race; /repo carries no hook commit",
    "baseline_off_cmd":"cd /repo && go test -vet=off -count=1 -timeout 25m ./...",
    "source_commits":[],
    "add_only":True
@@ -41,27 +41,27 @@ def check(pid, world, text, note, tech):
       "level_note":note,"technique":tech}
 C = {
 "C05": ("W-RADIO",
-  "Seeded search over fault sequences and session histories: 1-4 device tasks and a network-server task exchange frames that are produced and consumed by the real library over a simulated radio that loses, duplicates, reorders, delays, corrupts (per byte class), truncates and misroutes frames, with long partitions (16-bit counter roll-over), restarts with stale keys or counters, reflected direction and 1.1 MIC-parameter skew. Every arrival is judged against an independent spec MIC over the RECEIVED bytes with the RECEIVER's parameters (accepted => spec MIC equals wire MIC; unmodified and in-sync => accepted and content identical to what was sent). Sampling, not proof; the library holds no session state, so the simulator's leverage here is correlated perturbations and the per-arrival oracle rather than interleaving.",
+  "Seeded search over fault sequences and session histories: 1-4 device tasks and a network-server task exchange frames that are produced and consumed by the real library over a simulated radio that loses, duplicates, reorders, delays, corrupts (per byte class), truncates and misroutes frames, with long partitions (16-bit counter roll-over), restarts with stale keys or counters, reflected direction and 1.1 MIC-parameter skew. Every arrival is judged against an independent spec MIC over the RECEIVED bytes with the RECEIVER's parameters (accepted => spec MIC equals wire MIC; unmodified and in-sync => accepted and content identical to what was sent). Sampling, not proof; the library holds no session state, so the simulator's leverage here is correlated perturbations and the per-arrival oracle rather than interleaving. Virtual time passes between operations and while frames are in the air (the library's clock is the simulator's); one run in forty has 24-57 sessions.",
   "Trusted: AES-CMAC / B0 / B1 / keystream models in /verif/spec (RFC 4493, LoRaWAN 1.0.4/1.1), session logic of the harness. MHDR RFU bits: see known findings.",
   "deterministic simulation: seeded fault injection on a simulated radio + independent spec-MIC oracle per arrival"),
 "C07": ("W-REG",
-  "Seeded search over schedules x registration histories: an operator registers proprietary MAC commands while 2-4 codec tasks decode command streams through the real library, preempted at every statement. Decided by: registry linearizability (porcupine) against a sequential map model, stream framing against an independent splitter + bit-layout decoder (exact when no registration is in flight, per-registration sizes otherwise), direction isolation, size-table = encoded length, lossless-or-error over in-range and full-domain values, and the race detector made deterministic. Sampling, not proof; the value half (R5) is sampled only.",
+  "Seeded search over schedules x registration histories: an operator registers proprietary MAC commands while 2-4 codec tasks decode command streams through the real library, preempted at every statement. Decided by: registry linearizability (porcupine) against a sequential map model, stream framing against an independent splitter + bit-layout decoder (exact when no registration is in flight, per-registration sizes otherwise), direction isolation, size-table = encoded length, lossless-or-error over in-range and full-domain values, and the race detector made deterministic. Callers modify decoded commands they were handed and encode every command twice; histories of up to 260 registrations; virtual time passes between operations. Sampling, not proof; the value half (R5) is sampled only.",
   "Trusted: the spec tables in /verif/spec (transcribed from LoRaWAN 1.0.4/1.1), porcupine, Go race detector, statement-granularity preemption. Re-registration with size 0 and negative sizes are outside the judged histories.",
   "deterministic simulation: seeded scheduler + history/linearizability oracle + deterministic race oracle"),
 "C10": ("W-ISO",
-  "Seeded search over schedules x buffer-reuse timing: a receive task decodes packets from one reusable buffer / a pool arena and hands frames to 2-4 workers that validate, decrypt and re-marshal them while the memory is being overwritten; workers also run exported crypto on arena windows bordering a neighbour's region, decode into used values of every decodable type, mutate a band next to an observer instance; an operator registers MAC commands. Decided by differential oracles against the same call on private data (aliasing, spill, read-only, reuse, band independence), by repeating every outcome observed under concurrency alone after the run (interference), and by the race detector as a deterministic function of the seed. Functional correctness of those outcomes is deliberately not judged here. Sampling, not proof.",
+  "Seeded search over schedules x buffer-reuse timing: a receive task decodes packets from one reusable buffer / a pool arena and hands frames to 2-4 workers that validate, decrypt and re-marshal them while the memory is being overwritten; workers also run exported crypto on arena windows bordering a neighbour's region, decode into used values of every decodable type, mutate a band next to an observer instance; an operator registers MAC commands. Decided by differential oracles against the same call on private data (aliasing, spill, read-only, reuse, band independence), by repeating every outcome observed under concurrency alone after the run (interference), and by the race detector as a deterministic function of the seed. Functional correctness of those outcomes is deliberately not judged here. One run in thirty is a crowd of 34-57 sessions doing MIC/crypto at the same time. Sampling, not proof.",
   "Trusted: reflection-based deep snapshots, the keystream model, Go race detector (shadow-cell eviction could in principle drop an access), statement-granularity preemption.",
   "deterministic simulation: seeded scheduler + buffer-reuse fault timing + deterministic race oracle + differential isolation oracles"),
 "C14": ("W-ADR",
-  "Seeded search over band operation histories x device channel sets x a lossy NS<->device LinkADR exchange (lost downlinks, lost answers, device resets and re-joins, operator changes mid-flight, mis-provisioned devices): at every planning step the generated payloads, applied by the band's own apply function AND by an independent device model of LinkADRReq processing, must yield exactly the network's enabled channels restricted to what the device can know; every payload encodes, survives the wire, and the count bound holds. The channel-list model is updated by the same history, never read from the band's getters. Sampling, not proof.",
+  "Seeded search over band operation histories x device channel sets x a lossy NS<->device LinkADR exchange (lost downlinks, lost answers, device resets and re-joins, operator changes mid-flight, mis-provisioned devices): at every planning step the generated payloads, applied by the band's own apply function AND by an independent device model of LinkADRReq processing, must yield exactly the network's enabled channels restricted to what the device can know; every payload encodes, survives the wire, and the count bound holds. The channel-list model is updated by the same history, never read from the band's getters. The caller re-uses its device-list buffer and overwrites plans it was handed; plans grown to 92 channels; device sets planned again after many others. Sampling, not proof.",
   "Trusted: the channel-list model and the LinkADRReq apply model in /verif/spec (Regional Parameters), MAC-command wire pipeline of the library for A3.",
   "deterministic simulation: seeded operation histories + lossy exchange + refinement against an executable reference model"),
 "C15": ("W-PLAN",
-  "Seeded search over operation histories {AddChannel, Disable, Enable} with boundary-biased arbitrary int/uint32 arguments on every band configuration, with observer steps after every operation: refinement of all index-set getters and lookups against a channel-list model, error-not-panic discipline for every accessor, CFList rule, and closure of every band output under the MAC layer (join-accept with CFList through encrypt/marshal/unmarshal/decrypt; frequency-carrying MAC commands through stream encode/decode). Sampling, not proof.",
+  "Seeded search over operation histories {AddChannel, Disable, Enable} with boundary-biased arbitrary int/uint32 arguments on every band configuration, with observer steps after every operation: refinement of all index-set getters and lookups against a channel-list model, error-not-panic discipline for every accessor, CFList rule, and closure of every band output under the MAC layer (join-accept with CFList through encrypt/marshal/unmarshal/decrypt; frequency-carrying MAC commands through stream encode/decode). The caller overwrites results and CFLists it was handed and asks again; histories of up to 800 operations. Sampling, not proof.",
   "Trusted: the channel-list model in /verif/spec; which values count as 'produced by the band' (defaults and custom channels the operator chose on the region's grid). ISM2400 encodability: see known findings.",
   "deterministic simulation: seeded operation histories + refinement against an executable reference model + cross-layer closure"),
 "C16": ("W-JOIN",
-  "Seeded search over schedules x fault sequences: 1-3 network-server tasks push join-, rejoin- and HomeNS-requests of 1-6 independently modelled devices through ONE real join-server handler (via the real backend client or raw HTTP bodies), interleaved at every statement, with faults at every seam (four storage callbacks, body reader, response writer, transport loss/duplication/truncation, radio corruption). Decided by an independent device model: it decrypts the join-accept, checks its MIC, the echoed fields and the configured JoinNonce, unwraps the key envelopes with the configured KEKs (own RFC 3394) and compares them with the keys it derives; plus error-code, mirroring, narrow fault relaxation, cross-request independence (race oracle) and a clean join after faults stop. Sampling, not proof.",
+  "Seeded search over schedules x fault sequences: 1-3 network-server tasks push join-, rejoin- and HomeNS-requests of 1-6 independently modelled devices through ONE real join-server handler (via the real backend client or raw HTTP bodies), interleaved at every statement, with faults at every seam (four storage callbacks that fail, fail once, are slow in virtual time or answer after the client has gone; devices provisioned and KEKs re-keyed during the run; body reader, response writer incl. use after return, transport loss/duplication/truncation, radio corruption), up to 29 connections at once. Decided by an independent device model: it decrypts the join-accept, checks its MIC, the echoed fields and the configured JoinNonce, unwraps the key envelopes with the configured KEKs (own RFC 3394) and compares them with the keys it derives; plus error-code, mirroring, narrow fault relaxation, cross-request independence (race oracle) and a clean join after faults stop. Sampling, not proof.",
   "Trusted: the device model and key derivations in /verif/spec, Go race detector; logrus stubbed, sync.Pool made a deterministic per-run LIFO in the worker build; Redis/async client mode not simulated. Rejoin session keys: see known findings.",
   "deterministic simulation: seeded scheduler + seam fault injection + independent device-model oracle + deterministic race oracle"),
 }
